@@ -588,6 +588,61 @@ def _nat_dump_crashpoints(h):
 
 
 
+def nat_printer_report(h):
+    """bounded: WHAT the printer reports (the table handed to tabulate): every data line is a row of the stream at the printer's
+    position -- its 1-based index and the text of its cells as the row ENTERED (a later step edits rows in place), long cells cut at
+    max_cell_size --, indices strictly increasing, the first and the last row always there, all rows there when the resource is not
+    longer than num_rows + 1, a '...' line exactly where indices jump; the header names the resource and the fields with their types"""
+    import importlib
+    pm = importlib.import_module('dataflows.processors.printer')      # (the package re-exports the FUNCTION under the module's name)
+    from dataflows import Flow, printer
+    real = pm.tabulate
+    try:
+        for _ in range(h.n(25, 200)):
+            n = h.rng.choice([0, 1, 2, 3, 5, 11, 12, 13, 40, 125])
+            num_rows = h.rng.choice([1, 2, 3, 10])
+            last_rows = h.rng.choice([None, 1, 4])
+            mcs = h.rng.choice([100, 5])
+            fields = h.rng.choice([None, ['b'], ['b', 'a']])
+            rows = [{'a': i, 'b': 'text-%d-%s' % (i, 'x' * (i % 9)), 'c': [i]} for i in range(n)]
+            captured, heads = [], []
+            pm.tabulate = lambda data, headers=(), **kw: (captured.append(([list(r) for r in data], list(headers))) or 'TABLE')
+
+            def scribble(row):
+                row['b'] = 'EDITED-DOWNSTREAM'
+                row['a'] = -1
+            got = h.run(lambda: Flow([dict(r) for r in rows], printer(num_rows=num_rows, last_rows=last_rows, fields=fields, max_cell_size=mcs,
+                                                                       header_print=lambda hd, kw: heads.append(hd), table_print=lambda t, kw: None),
+                                     scribble).process())
+            cfg = (n, num_rows, last_rows, mcs, fields)
+            if n == 0:
+                continue          # (an empty list is no resource)
+            ok = got[0] == 'ok' and len(captured) == 1 and heads == ['res_1']
+            note = None
+            if ok:
+                data, headers = captured[0]
+                names = [f for f in ('a', 'b', 'c') if fields is None or f in fields]
+                cut = lambda v: str(v) if len(str(v)) <= mcs else str(v)[:mcs] + ' ...'
+                ok = headers[0] == '#' and [hd.split('\n')[0] for hd in headers[1:]] == names
+                lines = [r for r in data if r != ['...']]
+                idx = [r[0] for r in lines]
+                ok = ok and all(isinstance(i, int) and 1 <= i <= n for i in idx) and idx == sorted(set(idx)) and idx[0] == 1 and idx[-1] == n
+                ok = ok and all(r[1:] == [cut(rows[r[0] - 1][f]) for f in names] for r in lines)
+                if n <= num_rows + 1:
+                    ok = ok and idx == list(range(1, n + 1))
+                # '...' exactly at the jumps
+                want_shape = []
+                for j, i in enumerate(idx):
+                    if j and i != idx[j - 1] + 1:
+                        want_shape.append('...')
+                    want_shape.append(i)
+                ok = ok and [('...' if r == ['...'] else r[0]) for r in data] == want_shape
+                note = (headers, data[:6], len(data))
+            h.check(ok, 'dataflows/processors/printer.py::printer.func', cfg, 'the table reports rows of the stream as they entered', note or got[:2])
+    finally:
+        pm.tabulate = real
+
+
 def nat_dump_failures(h):
     """bounded: a RUN THAT FAILS (an exception in a source or a step, not a kill) while dump_to_path / dump_to_zip is writing: whenever
     a parseable descriptor can be found afterwards (datapackage.json in the directory / in a readable archive), every file it lists
